@@ -286,3 +286,22 @@ def judge_cancel(rec):
     if k < total:
         return None if result == "ERR" else 2
     return None if (result == "OK" and same in ("1", "-")) else 2
+
+
+def chain_stream(tier, seed, select, judge):
+    """Records of the shared beacon pipeline for checks that are not BeaconCheck subclasses.
+    Returns (summary-part, mismatches, problems)."""
+    p = pipeline(tier, seed)
+    if not p["ok"]:
+        return None, [], p["problems"]
+    mine = [r for r in p["records"] if select(r)]
+    found = []
+    for i, r in enumerate(mine):
+        code = judge(r)
+        if code:
+            found.append(dict(index="chain:%d" % i, code=code, kind="chain/" + r["kind"], coq=None,
+                              case=dict(chain_dir=r["dir"], steps_line=r["line"], step=r["step"][:300], model_says=r["detail"],
+                                        replay="%s %s %d" % (MODELRUN, r["dir"], r["line"]))))
+    summ = dict(evaluations=len(mine), distinct_nontrivial=len(set((r["chain"], r["line"]) for r in mine)),
+                samples=[dict(chain=r["chain"], line=r["line"], step=r["step"][:160], model_says=r["detail"][:120]) for r in mine[:3]])
+    return summ, found, list(p["problems"])
